@@ -187,6 +187,9 @@ class LaplaceTruncated(Laplace, TruncationAndFoldingMixin):
 
         shape = self.sensitivity / (self.epsilon - np.log(1 - self.delta))
 
+        if shape == 0:  # no noise: the output is the truncated value
+            return self._truncate(value) - value
+
         return shape / 2 * (np.exp((self.lower - value) / shape) - np.exp((value - self.upper) / shape))
 
     @copy_docstring(Laplace.variance)
@@ -194,6 +197,9 @@ class LaplaceTruncated(Laplace, TruncationAndFoldingMixin):
         self._check_all(value)
 
         shape = self.sensitivity / (self.epsilon - np.log(1 - self.delta))
+
+        if shape == 0:  # no noise
+            return 0.0
 
         variance = value ** 2 + shape * (self.lower * np.exp((self.lower - value) / shape)
                                          - self.upper * np.exp((value - self.upper) / shape))
@@ -255,6 +261,9 @@ class LaplaceFolded(Laplace, TruncationAndFoldingMixin):
         self._check_all(value)
 
         shape = self.sensitivity / (self.epsilon - np.log(1 - self.delta))
+
+        if shape == 0:  # no noise: the output is the folded value
+            return self._fold(value) - value
 
         # Numerator and denominator are scaled by exp(-(upper - value) / shape), so that every exponent is non-positive
         # for a value inside the domain and wide or infinite domains do not overflow to inf / inf
@@ -322,6 +331,9 @@ class LaplaceBoundedDomain(LaplaceTruncated):
         # _delta_c negative and the scale NaN, and randomise would then never return)
         delta_q = min(self.sensitivity, diam)
 
+        if delta_q == 0:  # no noise needed (and _f(0) below is 0 / 0 when epsilon - log(1 - delta) == log(2))
+            return 0.0
+
         def _delta_c(shape):
             if shape == 0:
                 return 2.0
@@ -370,6 +382,9 @@ class LaplaceBoundedDomain(LaplaceTruncated):
         if self._scale is None:
             self._scale = self._find_scale()
 
+        if self._scale == 0:  # no noise: the output is the value clamped to the domain
+            return max(min(value, self.upper), self.lower) - value
+
         bias = (self._scale - self.lower + value) / 2 * np.exp((self.lower - value) / self._scale) \
             - (self._scale + self.upper - value) / 2 * np.exp((value - self.upper) / self._scale)
         bias /= 1 - np.exp((self.lower - value) / self._scale) / 2 \
@@ -383,6 +398,9 @@ class LaplaceBoundedDomain(LaplaceTruncated):
 
         if self._scale is None:
             self._scale = self._find_scale()
+
+        if self._scale == 0:  # no noise
+            return 0.0
 
         variance = value**2
         variance -= (np.exp((self.lower - value) / self._scale) * (self.lower ** 2)
